@@ -1,40 +1,78 @@
 (* Annot/Calls.v -- a call judged against the signature derived from the def
-   node and against the one derived from the function object: both go through
-   the binder of C05 (Binder/Bind.v, `Signature.bind_arguments`).
-   No proofs in this file. *)
+   node and against the one derived from the function object.  Binding is the
+   binder of C05 (Binder/Bind.v, `Signature.bind_arguments`); checking the bound
+   arguments against the declared types is the call model of C06
+   (Call/Model.v, `check_call_preprocessed`), instantiated with the annotation
+   values of this model as its value type: every declared type is a closed type
+   expression `TTy t` of that model, and its literal None is TNone.  No proofs in this file. *)
 From Coq Require Import NArith List Bool.
 Import ListNotations.
 Require Import PV.Annot.Forms PV.Annot.Routes PV.Annot.DefSig.
 Require PV.Binder.Kind PV.Binder.Sig PV.Binder.Bind.
+Require PV.TypeVar.Base PV.TypeVar.Model PV.Call.Model.
 
 Definition to_kind (k : pkind) : Kind.kind :=
   match k with
   | PosOnly => Kind.PO | PosOrKw => Kind.POK | VarPos => Kind.VP | KwOnly => Kind.KO | VarKw => Kind.VK
   end.
 
-(* the part of a signature the binder looks at *)
-Definition to_binder_sig (l : list sparam) : Sig.sig :=
-  map (fun s => Sig.mkParam (s_name s) (to_kind (s_kind s)) (s_default s)) l.
+Definition bparam (e : N * pkind * bool) : Sig.param :=
+  let '(n, k, d) := e in Sig.mkParam n (to_kind k) d.
 
-(* declared type of the parameter an argument was bound to *)
-Fixpoint type_of_param (l : list sparam) (n : N) : option tval :=
-  match l with
+(* the part of a signature the binder looks at *)
+Definition to_binder_sig (l : list sparam) : Sig.sig := map bparam (map erase l).
+
+(* declared types by parameter name, up to the representation of unannotated varargs *)
+Definition decl_table (ty : param -> tval) (ps : list param) : list (N * tval) :=
+  map (fun p => (p_name p, norm_type (p_kind p) (ty p))) ps.
+
+Fixpoint lookup (tys : list (N * tval)) (n : N) : option tval :=
+  match tys with
   | [] => None
-  | s :: r => if N.eqb (s_name s) n then Some (s_type (norm_sparam s)) else type_of_param r n
+  | (m, t) :: r => if N.eqb m n then Some t else lookup r n
   end.
 
 (* the verdict of one call: where every argument is bound, and against which declared type
    it will be checked (None = the call is reported: no binding) *)
-Definition judge (l : list sparam) (raw : list Bind.rawarg)
+Definition judge (l : list sparam) (tys : list (N * tval)) (raw : list Bind.rawarg)
   : option (list (N * Bind.position * Bind.payload * option tval)) :=
   match Bind.preprocess raw with
   | None => None
   | Some a =>
       match Bind.bind (to_binder_sig l) a with
       | None => None
-      | Some b => Some (map (fun x => (x, type_of_param l (fst (fst x)))) b)
+      | Some b => Some (map (fun x => (x, lookup tys (fst (fst x)))) b)
       end
   end.
 
-Definition call_in_defining_scope (ps : list param) := judge (sig_from_def ps).
-Definition call_from_importer (ps : list param) := judge (sig_from_runtime ps).
+Definition call_in_defining_scope (ps : list param) := judge (sig_from_def ps) (decl_table def_type ps).
+Definition call_in_defining_scope_legacy (ps : list param) := judge (sig_from_def_legacy ps) (decl_table def_type ps).
+Definition call_from_importer (ps : list param) := judge (sig_from_runtime ps) (decl_table rt_type ps).
+
+(* ---- with argument types: the call checker of C06 over these signatures ---- *)
+(* *args / **kwargs are checked element-wise against the element type *)
+Definition elem_type (k : pkind) (t : tval) : tval :=
+  match k, t with
+  | VarPos, TGeneric _ [e] => e
+  | VarKw, TGeneric _ [_; e] => e
+  | _, _ => t
+  end.
+
+Section Checked.
+  Context (O : PV.TypeVar.Base.ops tval) (limit : nat).
+
+  Definition cparam_of (tys : list (N * tval)) (e : N * pkind * bool) : @Call.Model.cparam tval :=
+    let '(n, k, d) := e in
+    Call.Model.mk_cparam (bparam e)
+      (match lookup tys n with Some t => Call.Model.AnnE (Call.Model.TTy (elem_type k t)) | None => Call.Model.AnnNone end)
+      None.
+
+  Definition to_csig (l : list sparam) (tys : list (N * tval)) (ret : tval) : @Call.Model.csig tval :=
+    Call.Model.mk_csig (map (cparam_of tys) (map erase l)) [] (Call.Model.RTy ret).
+
+  (* diagnostics (incompatible_call / incompatible_argument / ...) and result type of one call *)
+  Definition check_in_defining_scope (ps : list param) (r : option aexpr) (c : @Call.Model.ccall tval) :=
+    Call.Model.check_call O limit TNone (to_csig (sig_from_def ps) (decl_table def_type ps) (ret_from_def r)) c.
+  Definition check_from_importer (ps : list param) (r : option aexpr) (c : @Call.Model.ccall tval) :=
+    Call.Model.check_call O limit TNone (to_csig (sig_from_runtime ps) (decl_table rt_type ps) (ret_from_runtime r)) c.
+End Checked.
